@@ -374,7 +374,8 @@ RULE = ("(a) terms of the shared `terms` family with aliases at every level (p=0
         "(h) select lists with '*' / t.* / Star() before or after aliased terms (what survives is modelled by normalize_sel, "
         "tied to select() by extracted star programs), the terms re-used in GROUP BY / ORDER BY. "
         "(i) the ClickHouse helper wrappers of pypika/clickhouse/*.py (enumerated from the source) around aliased "
-        "column objects in every position. Otherwise alias names are sentinels (zq..) so the oracle can count "
+        "column objects in every position; (j) each dialect's own select-list hooks over aliased items: distinct(), MSSQL "
+        "top(n, percent, with_ties), MySQL modifier(), PostgreSQL / ClickHouse distinct_on(). Otherwise alias names are sentinels (zq..) so the oracle can count "
         "them per clause. Non-trivial = some aliased object sits in a non-select position or inside another expression, or a "
         "GROUP BY/ORDER BY element is aliased; distinct by structural hash.")
 TRUSTED = [
@@ -647,6 +648,43 @@ def owner_name(obj):
 # ----------------------------------------------------------------------------------------------
 # implementation side
 # ----------------------------------------------------------------------------------------------
+# ---- each dialect's own select-list hooks: case["head"] = {"distinct": bool, "top": [n, percent, with_ties] (MSSQL),
+#      "modifiers": [...] (MySQL), "distinct_on": [column names] (PostgreSQL, ClickHouse)}
+HEAD_HOOKS = {"MSSQLQuery": ("top",), "MySQLQuery": ("modifiers",), "PostgreSQLQuery": ("distinct_on",),
+              "ClickHouseQuery": ("distinct_on",)}
+
+
+def apply_head(q, case):
+    h = case.get("head") or {}
+    if h.get("distinct"):
+        q = q.distinct()
+    if h.get("top") is not None:
+        n, pct, ties = h["top"]
+        q = q.top(n, percent=pct, with_ties=ties) if (pct or ties) else q.top(n)
+    for m in h.get("modifiers") or []:
+        q = q.modifier(m)
+    if h.get("distinct_on"):
+        q = q.distinct_on(*h["distinct_on"])
+    return q
+
+
+def head_text(case):
+    """the text the hooks put between SELECT and the select list (harness side of the CStmtH correspondence case)"""
+    h = case.get("head") or {}
+    cls = case["cls"]
+    if h.get("distinct_on"):
+        qc = SPEC_QUOTE.get(cls, '"')
+        d = "DISTINCT ON(%s) " % ",".join(qc + c + qc for c in h["distinct_on"])
+    else:
+        d = "DISTINCT " if h.get("distinct") else ""
+    if h.get("top") is not None:
+        n, pct, ties = h["top"]
+        d += "TOP (%d) " % n + ("PERCENT " if pct else "") + ("WITH TIES " if ties else "")
+    if h.get("modifiers"):
+        d += " ".join(h["modifiers"]) + " "
+    return d
+
+
 def default_prog(case):
     """the builder calls of a flat statement in the canonical order, nothing rendered in between"""
     steps = [["select", i, False] for i in range(len(case["sel"]))]
@@ -685,7 +723,7 @@ def build_query(case, memo, plain=False):
             q = q.having(bld(case["having"], memo))
         for x, d in case.get("order") or []:
             q = q.orderby(bld(x, memo), order=None if d is None else getattr(Order, d))
-        return q
+        return apply_head(q, case)
     for op, ix, render in prog:
         if op == "select":
             q = q.select(bld(case["sel"][ix], memo))
@@ -703,7 +741,7 @@ def build_query(case, memo, plain=False):
                 str(q)                      # e.g. logging the intermediate statement
             except Exception:  # noqa
                 pass
-    return q
+    return apply_head(q, case)
 
 
 def run_impl(case):
@@ -735,11 +773,13 @@ def to_coq(case, outcome):
         o = lambda x: "None" if x is None else "(Some %s)" % coq_term(x)   # noqa: E731
         order = L(["(%s, %s)" % (coq_term(x), "None" if d is None else "(Some %s)" % ("DAsc" if d == "asc" else "DDesc"))
                    for x, d in case.get("order") or []])
-        return ("(CStmt {| s_cls := %s; s_sel := %s; s_on := %s; s_where := %s; s_group := %s; s_having := %s; s_order := %s |} %s)"
+        ctor = "CStmt" if not case.get("head") else "CStmtH"
+        tail = S(text) if not case.get("head") else "%s %s" % (S(head_text(case)), S(text))
+        return ("(" + ctor + " {| s_cls := %s; s_sel := %s; s_on := %s; s_where := %s; s_group := %s; s_having := %s; s_order := %s |} %s)"
                 % (CLS_COQ[case["cls"]],
                    ("(normalize_sel %s)" % L([sitem_coq(i) for i in case["selprog"]])) if case.get("selprog") is not None
                    else L([coq_term(x) for x in case["sel"]]), o(case.get("on")), o(case.get("where")),
-                   L([coq_term(x) for x in case.get("group") or []]), o(case.get("having")), order, S(text)))
+                   L([coq_term(x) for x in case.get("group") or []]), o(case.get("having")), order, tail))
     except ValueError:
         return None          # contains a kind the Coq term model does not have
 
@@ -752,6 +792,7 @@ SENT_RE = re.compile(r"zq[0-9A-Za-z]+")
 SPEC_QUOTE = {"MySQLQuery": "`", "OracleQuery": ""}
 SPEC_AS = {"ClickHouseQuery": True}
 NO_GROUP_ALIAS = ("OracleQuery", "MSSQLQuery")
+HEAD_RE = re.compile(r'(DISTINCT ON\([^)]*\) |DISTINCT )?(TOP \(\d+\) (PERCENT )?(WITH TIES )?)?((SQL_[A-Z_]+|HIGH_PRIORITY|STRAIGHT_JOIN) )*')
 FROM_T = re.compile(r'(["`]?)t\1(?= |$)')
 
 
@@ -1210,7 +1251,8 @@ def oracle(case, outcome):
         for spec, seg in zip(case["row"], parts):
             out += judge_element(spec, seg, "values", conv, memo, set(), False, {})
         return out
-    sel_parts = split_top(segs["select"])
+    m_head = HEAD_RE.match(segs["select"])
+    sel_parts = split_top(segs["select"][m_head.end():])
     if case.get("selprog") is not None:
         # select('*', ...) / table stars drop some arguments: "the alias is in the select list" is read off the RENDERED list
         # (an item that ends with a sentinel alias defines it); the items themselves are judged by the star-free cases
@@ -1399,6 +1441,22 @@ class G:
         return ["basic", "gte", ["agg", "MAX", x, None], I(1), None]
 
 
+def gen_head(rng, cls):
+    h = {}
+    if rng.random() < 0.4:
+        h["distinct"] = True
+    for hook in HEAD_HOOKS.get(cls, ()):
+        if rng.random() < 0.8:
+            if hook == "top":
+                pct = rng.random() < 0.3
+                h["top"] = [rng.choice([0, 1, 5, 100] if pct else [0, 1, 5, 10 ** 9]), pct, rng.random() < 0.3]
+            elif hook == "modifiers":
+                h["modifiers"] = rng.sample(["SQL_CALC_FOUND_ROWS", "HIGH_PRIORITY", "SQL_NO_CACHE"], rng.choice([1, 2]))
+            else:
+                h["distinct_on"] = rng.sample(tf.NAMES, rng.choice([1, 2]))
+    return h or {"distinct": True}
+
+
 def gen_stmt(rng, tier):
     cls = rng.choice(CLASSES)[1]
     joined = rng.random() < 0.35
@@ -1429,6 +1487,8 @@ def gen_stmt(rng, tier):
         case["having"] = g.wrap(rng.choice(sel)) if rng.random() < 0.75 else g.boolean(1)
     if rng.random() < 0.5:
         case["order"] = [[element(), rng.choice([None, "asc", "desc"])] for _ in range(rng.choice([1, 1, 2, 3]))]
+    if rng.random() < 0.3:
+        case["head"] = gen_head(rng, cls)
     if rng.random() < 0.5 and (case["group"] or case["order"]):
         case["prog"] = random_prog(rng, case)
     elif rng.random() < 0.3 and all(modelled(x) for x in sel):
@@ -2024,6 +2084,22 @@ def ch_grid(classes=("ClickHouseQuery", "Query")):
     return out
 
 
+def head_grid():
+    """every dialect's own select-list hook over aliased select terms of every kind, the terms re-used in GROUP BY / ORDER BY"""
+    out = []
+    heads = {"MSSQLQuery": [{"top": [5, False, False]}, {"top": [5, True, False]}, {"top": [5, False, True]}, {"top": [0, True, True]},
+                            {"distinct": True, "top": [7, False, False]}, {"distinct": True}],
+             "MySQLQuery": [{"modifiers": ["SQL_CALC_FOUND_ROWS"]}, {"distinct": True, "modifiers": ["HIGH_PRIORITY", "SQL_NO_CACHE"]}],
+             "PostgreSQLQuery": [{"distinct_on": ["a"]}, {"distinct": True, "distinct_on": ["a", "b"]}],
+             "ClickHouseQuery": [{"distinct_on": ["a"]}, {"distinct": True}]}
+    for _, py in CLASSES:
+        for h in heads.get(py, [{"distinct": True}]):
+            for k in CONSUMING + ["isnull", "vali", "cplx"]:
+                x = simple_top(k, "zqA")
+                out.append(dict(stmt(py, sel=[x, F("c", "zqB")], group=[x], order=[[x, "desc"], [F("c", "zqB"), None]]), head=h))
+    return out
+
+
 def corpus():
     sc = dict(tf.STR_CTX)
     w_null = ["isnull", F("a"), "n"]
@@ -2045,7 +2121,7 @@ def corpus():
         proved.append(stmt(cls, sel=[ex_m, ex_s], on=["basic", "eq", F("a"), F("b"), None],
                            where=["basic", "gt", ex_m, I(0), None], group=[ex_m], having=["basic", "gt", ex_s, I(1), None],
                            order=[[ex_m, "desc"], [ex_s, None], [F("z", "zz"), None]]))
-    out = proved + grid_cases(("Query",)) + nested_grid() + collide_grid() + render_grid() + star_grid() + ch_grid()
+    out = proved + grid_cases(("Query",)) + nested_grid() + collide_grid() + render_grid() + star_grid() + ch_grid() + head_grid()
     # alias quoting of every consuming kind in the classes whose convention differs (sentinel names)
     for cls in ("SnowflakeQuery", "PostgreSQLQuery", "OracleQuery", "MSSQLQuery", "ClickHouseQuery", "MySQLQuery"):
         for k in CONSUMING + ["an", "isnull", "cplx", "nega"]:
@@ -2140,6 +2216,8 @@ def histogram(cases):
             inc("colliding-alias-values")
         if c.get("selprog") is not None:
             inc("select-list-with-star")
+        for hk in (c.get("head") or {}):
+            inc("head:" + hk)
         if c["kind"] == "q":
             from harness import queries_family as qf
             for k_, v_ in qf.shape(c["q"]).items():
@@ -2181,7 +2259,7 @@ def targeted_search(rng, broken, mism_cases):
         out.append(gen_stmt(rng, "quick"))
     for _ in range(1500):
         out.append(gen_nested(rng, "quick"))
-    out += collide_grid([py for _, py in CLASSES]) + render_grid([py for _, py in CLASSES]) + star_grid([py for _, py in CLASSES]) + ch_grid([py for _, py in CLASSES])
+    out += collide_grid([py for _, py in CLASSES]) + render_grid([py for _, py in CLASSES]) + star_grid([py for _, py in CLASSES]) + ch_grid([py for _, py in CLASSES]) + head_grid()
     for _ in range(1500):
         out.append(gen_collide(rng, "quick"))
     return out
